@@ -12,9 +12,9 @@ from .codec import prng_bytes
 from . import oracle as o
 from . import runner as R
 
-LEN = {'x25519': 64, 'sc_reduce': 64, 'fe_mix': 64, 'x25519_base': 32, 'fe_inv': 32, 'ed_sign': 96, 'ge_dsm': 96, 'poly1305': 130, 'sc_muladd': 96}
+LEN = {'x25519': 64, 'sc_reduce': 64, 'fe_mix': 64, 'x25519_base': 32, 'fe_inv': 32, 'ed_sign': 96, 'ge_dsm': 96, 'poly1305': 130, 'sc_muladd': 96, 'poly1305x': 257}
 # kinds whose model is cheap enough to recompute whole blocks (every call), not only the sampled ones
-CHEAP = {'sc_reduce', 'fe_mix', 'poly1305', 'sc_muladd'}
+CHEAP = {'sc_reduce', 'fe_mix', 'poly1305', 'sc_muladd', 'poly1305x'}
 M128 = (1 << 128) - 1
 P, L = o.P, o.L
 M255 = (1 << 255) - 1
@@ -69,6 +69,17 @@ def spec(kind, inp):
         a, b = int.from_bytes(inp[:32], 'little'), int.from_bytes(inp[32:64], 'little')
         c = int.from_bytes(inp[64:96], 'little') & ((1 << 252) - 1)
         return ((a * b + c) % L).to_bytes(32, 'little')
+    if kind == 'poly1305x':
+        key = bytearray(inp[:32])
+        for j in range(16):
+            if inp[129] & 1 == 1 or inp[130 + j] & 3 != 0:
+                key[j] = 0xff
+        nblk = 2 + inp[32] % 5
+        msg = bytearray(inp[33:33 + 16 * nblk])
+        for j in range(len(msg)):
+            if inp[161 + j] & 3 != 0:
+                msg[j] = 0xff
+        return o.poly1305(bytes(key), bytes(msg))
     if kind == 'poly1305':
         mlen = inp[32] % 97
         return o.poly1305(inp[:32], inp[34:34 + mlen])
